@@ -1,0 +1,9 @@
+//go:build !verif
+
+package pqueue
+
+// verifYield and verifWait are schedule-control points used only by the
+// verification harness (build tag "verif"). Without the tag they are no-ops.
+func verifYield(string) {}
+
+func verifWait(<-chan struct{}, <-chan struct{}) {}
